@@ -7,146 +7,9 @@ EXTENDS Server, Writer, Json, IOUtils
 
 Rec == ndJsonDeserialize(IOEnv.TRACE)
 
-MkZone(j) ==
-  LET apex == ParseName(j.name)
-      all == [i \in 1..Len(j.records) |->
-                LET r == j.records[i] IN
-                [owner |-> LowerName(ParseName(r.owner).name), type |-> r.type, ttl |-> r.ttl,
-                 rdata |-> CanonRdata(r.type, r.rdata), raw |-> r.rdata]]
-      \* the zone store de-duplicates by RDATA equality (C19/C20): keep the first of each class
-      keep == {i \in 1..Len(all) : ~\E k \in 1..(i - 1) :
-                 all[k].owner = all[i].owner /\ all[k].type = all[i].type /\ all[k].rdata = all[i].rdata}
-      RECURSIVE Pick(_)
-      Pick(i) == IF i > Len(all) THEN <<>> ELSE (IF i \in keep THEN <<all[i]>> ELSE <<>>) \o Pick(i + 1)
-  IN [apex |-> LowerName(apex.name), state |-> j.state, class |-> j.class, recs |-> Pick(1)]
-MkCat(j) == [i \in 1..Len(j.catalog) |-> MkZone(j.catalog[i])]
-MkKeys(j) == [i \in 1..Len(j.keys) |-> [name |-> LowerName(ParseName(j.keys[i].name).name), alg |-> j.keys[i].alg, secret |-> j.keys[i].secret]]
-MkCfg(j) == [cat |-> MkCat(j), payload |-> j.payload, keys |-> MkKeys(j), rrl |-> j.rrl, strict |-> j.strict]
-
 VARIABLES l, cfg, bad, nbad
 vars == <<l, cfg, bad, nbad>>
-
-Ttl(rr) == rr.ttlhi * 65536 + rr.ttllo
-Plain(rrs) == [i \in 1..Len(rrs) |-> RR(rrs[i].owner, rrs[i].type, Ttl(rrs[i]), rrs[i].rdata)]
-NoPseudo(rrs) == SelectSeq(rrs, LAMBDA r : r.type # 41 /\ r.type # 250)
-Opts(rrs) == SelectSeq(rrs, LAMBDA r : r.type = 41)
-Tsigs(rrs) == SelectSeq(rrs, LAMBDA r : r.type = 250)
-Chk(tag, cond) == IF cond THEN {} ELSE {tag}
-
-QEcho(rq) == LET d == DecodeName(rq, 12) IN WireOf(d.name) \o SubSeq(rq, 12 + d.first + 1, 12 + d.first + 4)
-
-\* start offsets of n records beginning at c (<<>> on failure)
-RECURSIVE Starts(_, _, _, _)
-Starts(msg, c, n, acc) ==
-  IF n = 0 THEN acc
-  ELSE LET d == RRDelimit(msg, c) IN IF ~d.ok THEN <<>> ELSE Starts(msg, d.end, n - 1, Append(acc, c))
-LastRRStart(msg, qd) ==
-  LET c0 == IF qd = 1 THEN 12 + DecodeName(msg, 12).first + 4 ELSE 12
-      st == Starts(msg, c0, U16(msg, 6) + U16(msg, 8) + U16(msg, 10), <<>>) IN st[Len(st)]
-
-\* size of the TSIG RR the server has to add (owner and algorithm name are never compressed)
-TsigRRLen(t, maclen, otherlen) == Len(WireOf(t.keyname)) + 10 + Len(WireOf(t.f.alg)) + 16 + maclen + otherlen
-
-\* C02: structural well-formedness beyond "decodes completely"
-WellFormed(rs) ==
-  /\ Len(Opts(rs.an)) = 0 /\ Len(Opts(rs.ns)) = 0 /\ Len(Opts(rs.ar)) <= 1
-  /\ Len(Tsigs(rs.an)) = 0 /\ Len(Tsigs(rs.ns)) = 0 /\ Len(Tsigs(rs.ar)) <= 1
-  /\ (Len(Tsigs(rs.ar)) = 1 => rs.ar[Len(rs.ar)].type = 250)
-  /\ (cfg.strict => \A s \in {rs.an, rs.ns, rs.ar} : \A i \in 1..Len(s) : Valid(s[i].class, s[i].type, s[i].rdata))
-
-\* the response TSIG against expectation t (mode "unsigned" | "signed"); e = whole expectation
-TsigFails(r, rs, e) ==
-  LET t == e.tsig
-      ts == Tsigs(rs.ar) IN
-  IF t.mode = "none" THEN Chk("C10", ts = <<>>)
-  ELSE IF Len(ts) # 1 THEN {"C10"}
-  ELSE LET rt == ts[1]
-           rf == TsigFields(rt.rdata)
-           f == t.f IN
-    IF ~rf.ok THEN {"C02"}
-    ELSE Chk("C10", rt.owner = t.keyname /\ rt.class = 255 /\ rt.ttlhi = 0 /\ rt.ttllo = 0)
-         \cup Chk("C10", rf.alg = f.alg /\ rf.fudge = 300 /\ rf.origid = f.origid /\ rf.error = t.terr)
-         \cup (IF t.mode = "unsigned"
-               THEN Chk("C10", rf.mac = <<>> /\ rf.other = <<>> /\ NowIn(rf.time48, r.t0, r.t1))
-               ELSE LET rtstart == LastRRStart(r.resp, rs.qd)
-                        mac == HMAC(t.alg, t.secret,
-                                    Digest(1, r.resp, rtstart, t.keyname, [rf EXCEPT !.origid = f.origid], f.mac)) IN
-                    Chk("C10", rf.mac = mac)
-                    \cup (IF t.terr = 18
-                          THEN Chk("C10", rf.time48 = f.time48 /\ Len(rf.other) = 6 /\ NowIn(rf.other, r.t0, r.t1))
-                          ELSE Chk("C10", rf.other = <<>> /\ NowIn(rf.time48, r.t0, r.t1))))
-
-RespFails(r, e) ==
-  LET rs == DecodeMessage(r.resp)
-      rq == r.req IN
-  IF ~rs.ok THEN {"C02"}
-  ELSE
-  LET tc == Bit(rs.flags, 512) = 1
-      aa == Bit(rs.flags, 1024) = 1
-      an == Plain(rs.an)  ns == Plain(rs.ns)  ar == Plain(NoPseudo(rs.ar))
-      opcode == (At(rq, 2) \div 8) % 16
-      extr == (rs.flags % 16) + (IF Opts(rs.ar) # <<>> THEN (Opts(rs.ar)[1].ttlhi \div 256) * 16 ELSE 0)
-      nodata == an = <<>> /\ ns = <<>> /\ ar = <<>>
-      slipped == cfg.rrl /\ r.transport = "udp" /\ opcode = 0 /\ tc /\ nodata
-  IN
-     Chk("C02", WellFormed(rs))
-     \cup Chk("C13", PointersOk(r.resp, {}))
-     \cup Chk("C04", Len(r.resp) <= e.limit /\ (r.transport = "tcp" => ~tc))
-     \cup Chk("C03", /\ rs.id = U16(rq, 0)
-                     /\ Bit(rs.flags, 32768) = 1
-                     /\ (rs.flags \div 2048) % 16 = opcode
-                     /\ Bit(rs.flags, 256) = (IF opcode = 0 THEN At(rq, 2) % 2 ELSE 0)
-                     /\ Bit(rs.flags, 128) = 0 /\ (rs.flags \div 16) % 8 = 0
-                     /\ (e.qecho => (rs.qd = 1 /\ rs.qsec = QEcho(rq)))
-                     /\ (~e.qecho => rs.qd = 0))
-     \cup Chk("C09", /\ Len(Opts(rs.ar)) = (IF e.edns THEN 1 ELSE 0)
-                     /\ (e.edns => LET o == Opts(rs.ar)[1] IN
-                                   o.owner = <<>> /\ o.class = cfg.payload /\ o.ttlhi % 256 = 0 /\ o.ttllo = 0 /\ o.rdata = <<>>))
-     \cup TsigFails(r, rs, e)
-     \cup (IF slipped THEN {}
-           ELSE IF ~e.hasAns THEN
-                Chk(e.src, extr = e.rcode /\ nodata /\ ~aa) \cup Chk("C04", ~tc)
-           ELSE IF tc THEN Chk("C04", r.transport = "udp" /\ nodata)
-           ELSE Chk(e.src, /\ extr = e.ans.rcode
-                           /\ aa = e.ans.aa
-                           /\ SameBag(an, e.ans.an)
-                           /\ SameBag(ns, e.ans.ns)
-                           /\ Range(ar) \subseteq Range(e.ans.ar)
-                           /\ (r.transport = "tcp" => Range(ar) = Range(e.ans.ar))
-                           /\ ("glue" \in DOMAIN e.ans => Range(e.ans.glue) \subseteq Range(ar))))
-
-\* expectation vs recorded outcome for one choice of the server's clock
-FailsAt(r, now) ==
-  LET e == Respond(r.req, r.transport, cfg, now) IN
-  IF r.out = "panic" THEN {"C01"}
-  ELSE IF e.kind = "none" THEN Chk("C03", r.out = "none")
-  ELSE LET tooBig == e.tsig.mode # "none" /\
-                     12 + (IF e.qecho THEN Len(QEcho(r.req)) ELSE 0) + (IF e.edns THEN 11 ELSE 0)
-                     + TsigRRLen(e.tsig, (IF e.tsig.mode = "unsigned" THEN 0 ELSE OutLen(e.tsig.alg)),
-                                 (IF e.tsig.terr = 18 THEN 6 ELSE 0)) > e.limit
-           dropped == cfg.rrl /\ r.transport = "udp" /\ (At(r.req, 2) \div 8) % 16 = 0 IN
-    IF tooBig THEN Chk("C10", r.out = "none")
-    ELSE IF r.out = "none" THEN Chk("C03", dropped)
-    ELSE RespFails(r, e)
-
-Fails(r) ==
-  IF r.t0 = r.t1 \/ ~MentionsTsig(r.req) THEN FailsAt(r, r.t0)
-  ELSE LET a == FailsAt(r, r.t0) IN IF a = {} THEN {} ELSE
-       LET b == FailsAt(r, r.t1) IN IF b = {} THEN {} ELSE a
-
-\* C04: relation between the UDP response and the complete (TCP) response to the same request
-UdpVsTcp(r) ==
-  ("tcp" \in DOMAIN r /\ r.out = "resp") =>
-    LET e == Respond(r.req, r.transport, cfg, r.t0)
-        u == DecodeMessage(r.resp)  t == DecodeMessage(r.tcp) IN
-    /\ t.ok /\ Bit(t.flags, 512) = 0
-    /\ u.ok
-    /\ IF Len(r.tcp) <= e.limit THEN r.resp = r.tcp
-       ELSE IF Bit(u.flags, 512) = 1 THEN TRUE
-       ELSE /\ SameBag(Plain(u.an), Plain(t.an)) /\ SameBag(Plain(u.ns), Plain(t.ns))
-            /\ Range(Plain(NoPseudo(u.ar))) \subseteq Range(Plain(NoPseudo(t.ar)))
-
-AllFails(r) == Fails(r) \cup Chk("C04", UdpVsTcp(r))
+INSTANCE ServerJudge
 
 Init == l = 1 /\ cfg = [cat |-> <<>>, payload |-> 0, keys |-> <<>>, rrl |-> FALSE, strict |-> FALSE] /\ bad = <<>> /\ nbad = 0
 Step(r) ==
